@@ -16,6 +16,8 @@ func guardFor(prop string, p prog.Program) prog.Guard {
 	switch prop {
 	case "C01", "C02", "C03":
 		return prog.Chain(prog.GuardF2)
+	case "C15":
+		return prog.Chain(prog.GuardF2, prog.GuardF6, prog.GuardF10F11(p))
 	}
 	return nil
 }
